@@ -160,7 +160,7 @@ def units(tier, seed=0):
         for form in conv.FORMS:
             loops = form in ('generator',) or not _memcpy_compatible(T, U) or form == 'ptr_aliased'
             us.append(dict(id='conv.%s_from_%s.%s' % (T, U, form), tu='conv_%s_%s' % (T, U), gen=cxx, template_text=conv.c_unit(T, U, form), vars={},
-                           entry='h_uc', enforce='@F{%s}' % conv.FORMS[form][0], replace=[], props=['C15'], layer='memory.hpp/typeTraits.hpp',
+                           entry='h_uc', enforce='@F{%s}' % conv.FORMS[form][0], replace=[], props=['C15', 'C01'], layer='memory.hpp/typeTraits.hpp',
                            kind='bounded(items <= 4, copy loop unwound)', unwind=6, cdefs=['VF_WINDOWS=1'], config='conversion: %s <- %s, %s' % (T, U, form), replay='convert'))
     for spec, flags in elem.ELEM_CATALOGUE[tier]:
         for f in flags:
@@ -253,6 +253,10 @@ def units(tier, seed=0):
                     shapes = VEC_SHAPES2[tier] if not tracked else [(2, 48, 2, 48), (1, 16, 2, 48)]
                 if extra.get('intonly'):
                     shapes = VEC_SHAPES_CMP[tier]
+                if name == 'erase.wf_elem':
+                    # the heaviest unit (up to an hour each): two lists, two shapes
+                    if (spec, f) not in (('c4 v4', 0), ('c8a8 v2 p4a8', 3)): continue
+                    shapes = [(1, 32, 1, 32), (3, 64, 3, 64)]
                 for capk, unitsk, capo, unitso in shapes:
                     uu = dict(u); uu['id'] = u['id'] + '.cap%d' % capk + ('o%d' % capo if extra.get('two') else '')
                     if any(x['id'] == uu['id'] for x in us[-8:]): continue   # one-operand units: shapes that differ in the other operand only
